@@ -156,6 +156,25 @@ ROUND_TEXT = {
          "angle BETWEEN two arguments, the distance between two lines, t.w of a twist); the error contract (which exception, and that "
          "the object is unchanged after a refused mutation); results that are right but of another documented type or length in "
          "one arm; the interplay of two methods of one object called in a particular order."),
+    14: ("This is a FOURTEENTH round.  Assume the very strong randomised differential checker of this property described here.  It "
+         "draws every kind of argument the statement names: all classes, call forms, container forms (list, tuple, namedtuple, 1-D, row, "
+         "column, frozen / strided / Fortran arrays), element types (int8 .. int64, unsigned, float16 / 32 / 64, bool, object), scalars "
+         "as Python / NumPy numbers of every width, on / off options as True / 1 / numpy.True_, options alone and in pairs (also a unit "
+         "without an angle, an unknown order / unit together with all-zero arguments), every pattern of exact zeros among scalar "
+         "arguments, special angles with continuous offsets of 1e-14 .. 1e-1 in ONE OR TWO slots at once, exact signed permutation "
+         "matrices (also with entries 1 + 2 ulp), vectors nearly parallel / nearly perpendicular (1e-12 .. 1e-6) to another argument, "
+         "operands related to each other (coaxial, parallel, mirrored twists; parallel lines of either sense; lines meeting at "
+         "1e-5 rad), everything at the small end of the range at once.  Objects hold 0..7, 8..100, 127..129, 255..257, 300 and "
+         "2000..10000 values, including the four unit quaternions 1, i, j, k and values that differ in the 9th decimal.  == and != are "
+         "probed exactly at the library's own equality threshold (found by bisection) in every sequence form and operand order.  "
+         "Every result is compared with an independent high-precision reference; operands, receivers and earlier results are "
+         "re-examined bit for bit (flags included) after every step; results are written into and the call repeated; calls run from "
+         "four threads; loops mutate the object they iterate over; symbolic, numeric and mixed symbolic / numeric operands are "
+         "interleaved; every call is made twice, under python -O, and under non-default NumPy print options.  NOT wanted (out of "
+         "scope): anything that shows only under np.seterr(...='raise') or warnings-as-errors; results that are views of the "
+         "receiver's storage; user subclasses; NaN / inf; drift below 1e-10; magnitudes outside the ranges the QUANTIFIER states.  "
+         "Find what such a checker STILL cannot see, and say in your README why it cannot.  Prefer a slip in ordinary, frequently "
+         "used behaviour that is wrong only for a narrow but realistic class of inputs over an exotic argument type."),
 }
 
 HUNT_TEXT = '''ALSO, BEFORE the mutants (about a third of your effort): hunt for inputs for which the UNMODIFIED tree already violates the property.  Read the statement and the quantifier literally and probe its corners systematically with small scripts: every class and call form it names, the extremes of the stated ranges, exact special values, multi-valued objects, every option value, both units, documented aliases, sequences of operations on one object.  Write what you find to {wt}/bughunt.md: for each violation a two-line reproduction, the value obtained and the value the property requires; if you find none, list briefly what you covered.  Do not fix anything.
